@@ -469,4 +469,56 @@ def FallbackSpec.get (s : FallbackSpec) (src : Nat → Option Str) (id : Nat) : 
 def feaShift (t : Table) (id : Nat) : Nat :=
   if maxId t ≤ 255 then id else if id ≤ 255 then id else id + (maxId t + 1 - 256)
 
+/-- fea-rs output.rs:152-155: the STAT elided fallback id is shifted with `saturating_add(id_offset)` *without* the
+    reserved-id test that `adjust_id` applies to every other reference (literal; differs from `feaShift` for ids ≤ 255). -/
+def feaShiftElided (t : Table) (id : Nat) : Nat :=
+  if maxId t ≤ 255 then id else id + (maxId t + 1 - 256)
+
+/-! ## Names supplied through feature code: fea-rs `NameBuilder` (fea-rs/src/compile/tables/name.rs) -/
+
+/-- `NameSpec` (name.rs:17-23) -/
+structure FeaSpec where
+  platform : Nat
+  encoding : Nat
+  lang : Nat
+  str : Str
+  deriving DecidableEq, Repr, Inhabited
+
+/-- `NameBuilder` (name.rs:10-15): records in insertion order, `last_nonreserved_id` -/
+structure FeaBuilder where
+  records : List (Nat × FeaSpec)
+  last : Nat
+  deriving Repr, Inhabited
+
+/-- `NameBuilder::default()` (name.rs:31-39): `last_nonreserved_id = LAST_RESERVED_NAME_ID` (255) -/
+def FeaBuilder.empty : FeaBuilder := ⟨[], 255⟩
+
+/-- `add` (name.rs:42-45): `last = max(last, id)`, whatever order the explicit records come in -/
+def FeaBuilder.add (b : FeaBuilder) (id : Nat) (sp : FeaSpec) : FeaBuilder := ⟨b.records ++ [(id, sp)], max b.last id⟩
+
+/-- `next_name_id` (name.rs:59-63); u16 saturation is outside the model -/
+def FeaBuilder.nextId (b : FeaBuilder) : Nat := b.last + 1
+
+/-- `add_anon_group` (name.rs:47-53): one fresh id for all non-empty entries of the group -/
+def FeaBuilder.addAnonGroup (b : FeaBuilder) (entries : List FeaSpec) : FeaBuilder × Nat :=
+  let id := b.nextId
+  ((entries.filter fun e => !e.str.isEmpty).foldl (fun c e => c.add id e) b, id)
+
+/-- compile_ctx.rs:1663-1669 (`table name` records in file order) then compile_ctx.rs:194-237 (anonymous groups in
+    build order: STAT elided fallback name, per DesignAxis its name and its AxisValue names, format-4 values,
+    `size` menu name, stylistic-set featureNames in tag order, cvParameters in tag order). Result: the builder and the id
+    of every group. -/
+def feaCompile (expl : List (Nat × FeaSpec)) (groups : List (List FeaSpec)) : FeaBuilder × List Nat :=
+  groups.foldl (fun (acc : FeaBuilder × List Nat) g => ((acc.1.addAnonGroup g).1, acc.2 ++ [(acc.1.addAnonGroup g).2]))
+    (expl.foldl (fun b p => b.add p.1 p.2) FeaBuilder.empty, [])
+
+/-- the FEA name records as they reach fontbe's merge: font-specific ids shifted above the compiler's own ids -/
+def feaRecordsShifted (own : Table) (b : FeaBuilder) : Table :=
+  b.records.map fun p => (⟨feaShift own p.1, p.2.platform, p.2.encoding, p.2.lang⟩, p.2.str)
+
+/-- `merge_name_records` (fontbe/src/name.rs:105-132): `records.chain(fea).collect::<BTreeMap<_, _>>()` — a later record
+    with the same (platform, encoding, language, id) replaces an earlier one. (The BTreeMap's key order only decides the
+    order of the output records.) -/
+def mergeNames (own fea : Table) : Table := (own ++ fea).foldl (fun t p => ainsert p.1 p.2 t) []
+
 end Fontc.Names
